@@ -6,10 +6,12 @@ pub fn shoelace(p: &[P]) -> f64 {
     if n < 3 {
         return 0.0;
     }
+    // translate to the first vertex: avoids cancellation for small polygons far from the origin
+    let (ox, oy) = p[0];
     let mut s = 0.0;
     for i in 0..n {
-        let (x1, y1) = p[i];
-        let (x2, y2) = p[(i + 1) % n];
+        let (x1, y1) = (p[i].0 - ox, p[i].1 - oy);
+        let (x2, y2) = (p[(i + 1) % n].0 - ox, p[(i + 1) % n].1 - oy);
         s += x1 * y2 - x2 * y1;
     }
     0.5 * s.abs()
@@ -24,12 +26,13 @@ pub fn centroid_mean(p: &[P]) -> P {
 /// area-weighted centroid of a simple polygon
 pub fn centroid_area(p: &[P]) -> P {
     let n = p.len();
+    let (ox, oy) = p[0];
     let mut a = 0.0;
     let mut cx = 0.0;
     let mut cy = 0.0;
     for i in 0..n {
-        let (x1, y1) = p[i];
-        let (x2, y2) = p[(i + 1) % n];
+        let (x1, y1) = (p[i].0 - ox, p[i].1 - oy);
+        let (x2, y2) = (p[(i + 1) % n].0 - ox, p[(i + 1) % n].1 - oy);
         let c = x1 * y2 - x2 * y1;
         a += c;
         cx += (x1 + x2) * c;
@@ -38,7 +41,7 @@ pub fn centroid_area(p: &[P]) -> P {
     if a.abs() < 1e-300 {
         return centroid_mean(p);
     }
-    (cx / (3.0 * a), cy / (3.0 * a))
+    (ox + cx / (3.0 * a), oy + cy / (3.0 * a))
 }
 
 /// Rectangle with centre (xc, yc), width w, height h rotated by `angle` (radians, CCW) about its centre.
